@@ -424,6 +424,79 @@ def rule_failfields(chk):
             good="start fields are not stored on the action", fail="_start stores its fields on the action (they would leak into the end message)")
 
 
+SAFE_EXC_ATTRS = {"errno": "int or None", "strerror": "str or None", "winerror": "int or None", "characters_written": "int", "returncode": "int", "code": None}
+UNSAFE_EXC_ATTRS = {"filename": "whatever object the failing call was given: str, but also bytes, an int file descriptor or an os.PathLike",
+                    "filename2": "whatever object the failing call was given: str, but also bytes or an os.PathLike",
+                    "args": "a tuple of arbitrary objects", "__cause__": "an exception object", "__context__": "an exception object", "__traceback__": "a traceback object",
+                    "cmd": "str, bytes or a sequence of them", "output": "bytes or str", "stdout": "bytes or str", "stderr": "bytes or str", "object": "the object being encoded (bytes)",
+                    "value": "an arbitrary object"}
+
+
+def rule_builtin_extractors(chk, prefix="C03"):
+    """The extractors eliot itself registers put only JSON-encodable values into the failed end message: a value the encoder
+    rejects makes the file destination raise, so that end message is never written (the action stays 'started' in the log)."""
+    ctx = chk.ctx
+    m = ctx.p.mod("_errors")
+    sites = []
+    for st in m.tree.body:
+        if isinstance(st, ast.Expr) and isinstance(st.value, ast.Call) and unparse(st.value.func).endswith("register_exception_extractor") and len(st.value.args) == 2:
+            sites.append(st.value)
+    chk.need(sites, "_errors: the built-in extractor registration was not found")
+    for c in sites:
+        fn = c.args[1]
+        param, values = None, []
+        if isinstance(fn, ast.Lambda):
+            param = fn.args.args[0].arg if fn.args.args else None
+            lay = common.dict_layers(fn.body)
+            values = lay
+        elif isinstance(fn, ast.Name) and fn.id in m.funcs and not m.funcs[fn.id].cls:
+            g = m.funcs[fn.id]
+            param = g.pos_params[0] if g.pos_params else None
+            values = []
+            rets = [r for r in iter_own_nodes(g.node) if isinstance(r, ast.Return)]
+            for r in rets:
+                if isinstance(r.value, ast.Name):
+                    for n_, lay, _rb in common.dict_events(g, ctx.cfg(g), r.value.id):
+                        values += lay
+                else:
+                    lay = common.dict_layers(r.value) if r.value is not None else None
+                    if lay is None:
+                        values = None
+                        break
+                    values += lay
+        else:
+            values = None
+        if values is None or param is None:
+            raise AnalysisError("_errors: built-in extractor %s is not a lambda / module function returning a dict construction (not modelled)" % unparse(fn)[:50])
+        bad, unknown = [], []
+        for l in values:
+            if l[0] != "key":
+                unknown.append(unparse(l[1])[:40])
+                continue
+            v = l[2]
+            if isinstance(v, ast.Constant):
+                continue
+            if isinstance(v, ast.Call) and isinstance(v.func, ast.Name) and v.func.id in ("str", "repr", "int", "float", "bool", "safeunicode", "saferepr"):
+                continue
+            if isinstance(v, ast.Attribute) and isinstance(v.value, ast.Name) and v.value.id == param:
+                if v.attr in UNSAFE_EXC_ATTRS:
+                    bad.append((unparse(l[1]), v.attr))
+                    continue
+                if v.attr in SAFE_EXC_ATTRS:
+                    continue
+            unknown.append(unparse(v)[:40])
+        cls = unparse(c.args[0])
+        for key, attr in bad:
+            chk.bad("%s.extract" % prefix, "built-in-extractor(%s):field %s is JSON-encodable" % (cls, key), "%s:%d" % (m.relpath, c.lineno),
+                    "the extractor eliot registers for %s logs %s.%s, which is %s: a value the JSON encoder rejects makes the file destination raise, the failed end message is never written "
+                    "and the action stays unfinished in the log" % (cls, param, attr, UNSAFE_EXC_ATTRS[attr]))
+        if unknown and not bad:
+            raise AnalysisError("_errors: built-in extractor for %s logs %s (JSON-encodability not modelled)" % (cls, unknown))
+        if not bad:
+            chk.ok("%s.extract" % prefix, "built-in-extractor(%s):fields-are-JSON-encodable" % cls, "%s:%d" % (m.relpath, c.lineno),
+                   "values logged: %s" % [unparse(l[2]) for l in values if l[0] == "key"])
+
+
 def _lookup_funcs(chk):
     """get_fields_for_exception plus the same-class helpers it (transitively) calls."""
     ctx = chk.ctx
@@ -622,6 +695,7 @@ def run(chk):
     rule_propagate(chk)
     rule_failfields(chk)
     rule_mro(chk)
+    rule_builtin_extractors(chk)
     rule_safeunicode(chk)
     rule_norecursion(chk)
     common.rule_instance_state(chk, "C03", [("_action", "Action"), ("_errors", "ErrorExtraction")])
